@@ -22,9 +22,12 @@ MC_Fns == {"exp"}
 MC_SOps == {"+", "*"}
 MC_VOps == {"+", "*", "-"}
 MC_Senses == {}
+MC_Stages == <<>>
+MC_FinalEn == {}
 MC_Want == {"V"}
 MC_WantD == {"D"}
 MC_WantDV == {"D", "V"}
 MC_WantH == {"D", "H", "V"}
+MC_NoPR(o) == <<>>
 ASSUME PrintT(<<"BASE", BaseCalls, BaseHeap, AllNames, SliceTab>>)
 =============================================================================
